@@ -28,8 +28,8 @@ import (
 var vodStreams = []string{"ts-vod", "fmp4-mv", "fmp4-audio"}
 
 func nreqOf(stream string) int {
-	if stream == "ts-live" {
-		return 6 // request indices exercised on the live stream
+	if stream == "ts-live" || stream == "fmp4-ll" {
+		return 6 // request indices exercised on the live streams
 	}
 	return streamByName(stream).nreq
 }
@@ -40,7 +40,16 @@ func enumerate(tier string, seed uint64, widen bool) []Scenario {
 		s.ID = len(l)
 		l = append(l, s)
 	}
-	all := append(append([]string{}, vodStreams...), "ts-live")
+	all := append(append([]string{}, vodStreams...), "ts-live", "fmp4-ll")
+	// statuses that are neither 4xx/5xx nor accepted: the answer is an HTTP failure whatever it carries
+	type sv struct {
+		code int
+		body bool
+	}
+	odd := []sv{{204, false}, {304, false}, {204, true}, {304, true}}
+	if tier == "thorough" || widen {
+		odd = append(odd, sv{202, false}, sv{205, false}, sv{202, true}, sv{301, false})
+	}
 	for _, st := range all {
 		n := nreqOf(st)
 		// a fault at every request index; also with Close called as the fault is served
@@ -49,6 +58,18 @@ func enumerate(tier string, seed uint64, widen bool) []Scenario {
 				add(Scenario{Stream: st, Fault: f, FaultAt: i, Close: "none"})
 				add(Scenario{Stream: st, Fault: f, FaultAt: i, Close: "on-fault", CloseTwice: i%2 == 1})
 			}
+		}
+		for i := 0; i < n; i++ {
+			for _, o := range odd {
+				add(Scenario{Stream: st, Fault: "status", FaultAt: i, FaultStatus: o.code, FaultBody: o.body, Close: "none"})
+			}
+			// 206 with the content: a failure on a playlist request, an ordinary answer on an init / segment /
+			// part request (then the run goes on: to the end of a VOD stream, or to the Close two requests later)
+			s206 := Scenario{Stream: st, Fault: "status", FaultAt: i, FaultStatus: 206, FaultBody: true, Close: "none"}
+			if streamByName(st).nreq == 0 {
+				s206.Close, s206.CloseAt = "during-do", i+2
+			}
+			add(s206)
 		}
 		// Close during every download: inside Do (index 0 = before the first response) and inside the body
 		for i := 0; i < n; i++ {
@@ -115,7 +136,11 @@ func oracle(sc Scenario, r *childResult) []failure {
 	}
 	mustEnd := r.FaultServed || r.OnTracksErred || r.AllDone || r.PointReached
 	if r.Result == "no-result" {
-		if mustEnd {
+		if r.FaultServed && !r.CloseBefore && !r.OnTracksErred && !r.AllDone {
+			// the client is still running as if nothing had happened: the goroutine dump depends on the moment
+			fail("C12:no-result:fault-ignored:"+sc.Fault+":"+r.FaultKind,
+				fmt.Sprintf("the %s fault served on a %s request was not surfaced: Wait() yielded nothing within 8 s and the client kept running", sc.Fault, r.FaultKind))
+		} else if mustEnd {
 			where := "unknown"
 			if len(r.Leaks) > 0 {
 				where = strings.Join(uniq(r.Leaks), "+")
@@ -328,6 +353,16 @@ func main() {
 		failures = append(failures, oracle(sc, r)...)
 		dist["stream:"+sc.Stream]++
 		dist["fault:"+sc.Fault]++
+		if sc.Fault == "status" {
+			b := ""
+			if sc.FaultBody {
+				b = "+body"
+			}
+			dist[fmt.Sprintf("status:%d%s", sc.statusCode(), b)]++
+			if r.FaultServed {
+				dist["status-fault-on:"+r.FaultKind]++
+			}
+		}
 		dist["close:"+sc.Close]++
 		dist["result:"+r.Result]++
 		if sc.OnTracksErr {
@@ -351,9 +386,11 @@ func main() {
 		key := struct {
 			S, F, C string
 			FA, CA  int
+			FS      int
+			FB      bool
 			OT, TW  bool
 			T       []string
-		}{sc.Stream, sc.Fault, sc.Close, sc.FaultAt, sc.CloseAt, sc.OnTracksErr, sc.CloseTwice, r.Trace}
+		}{sc.Stream, sc.Fault, sc.Close, sc.FaultAt, sc.CloseAt, sc.FaultStatus, sc.FaultBody, sc.OnTracksErr, sc.CloseTwice, r.Trace}
 		kj, _ := json.Marshal(key)
 		h := sha256.Sum256(kj)
 		hs := hex.EncodeToString(h[:8])
@@ -365,6 +402,11 @@ func main() {
 					samples = append(samples, map[string]interface{}{"scenario": sc, "trace": r.Trace, "result": r.Result})
 				}
 			}
+		}
+		if r.Truncated {
+			// a prefix of the trace cannot be compared with the result; the oracle above has judged the run
+			dist["trace-truncated-not-replayed"]++
+			continue
 		}
 		coqCases = append(coqCases, fmt.Sprintf("{| cc_trace := %s;\n   cc_result := %s |}", coqTrace(r.Trace), coqResult(r.Result)))
 		cases = append(cases, caseRec{Index: len(cases) % 300, Shard: len(cases) / 300, Scenario: sc, Result: r.Result, Trace: r.Trace})
@@ -392,8 +434,8 @@ func main() {
 	res := map[string]interface{}{
 		"evaluations":         len(scs),
 		"distinct_nontrivial": distinct,
-		"rule": "systematic enumeration: 4 stub presentations (MPEG-TS VOD, fMP4 behind a multivariant playlist, fMP4 video + audio rendition, live MPEG-TS) x " +
-			"{status 404, transport error} at every request index (alone, and with Close called as the fault is served) x Close inside Do / inside the body of every request index " +
+		"rule": "systematic enumeration: 5 stub presentations (MPEG-TS VOD, fMP4 behind a multivariant playlist, fMP4 video + audio rendition, live MPEG-TS, low-latency fMP4 with preload hints) x " +
+			"{status 404, 204, 304 without and with the content, 206 with the content (a failure only on playlist requests), transport error} at every request index (alone, and with Close called as the fault is served) x Close inside Do / inside the body of every request index " +
 			"(once, twice) x OnTracks {error, Close inside, Close right after} x end of stream {no Close, Close after, twice} x Close while a sample is paced; plus re-runs with " +
 			"random delays from splitmix64(seed). distinct = SHA-256 of (scenario shape, observed trace); non-trivial = the fault was served, or the close point was reached " +
 			"before the result, or the stream ended",
